@@ -979,14 +979,13 @@ pub fn eval(rule: &Value, data: &Value, t: &mut Trace) -> MOut {
                     Look::Unj(r) => return MOut::Unj(r),
                 }
             }
-            // readings the statement leaves open: duplicates of a present key counted once
-            // or each time; null keys ignored or counted as present
-            let readings = [
-                present_mult,
-                present_distinct.len() as u64,
-                present_mult + nulls,
-                present_distinct.len() as u64 + nulls.min(1),
-            ];
+            // "at least the required number of the listed keys are present": every LISTED key
+            // (every entry of the list, repeated or not) that is present counts - the literal
+            // reading, and the one under which "an absent key is never counted as present,
+            // however many times it is listed" says something. What the statement leaves open is
+            // whether a null key (ignored by `missing`) counts as a present entry.
+            let _ = &present_distinct;
+            let readings = [present_mult, present_mult + nulls];
             let met: Vec<bool> = readings.iter().map(|p| *p >= need).collect();
             if met.iter().any(|m| *m != met[0]) && !missing.is_empty() {
                 return MOut::Unj("missing_some: readings of 'number of listed keys present' differ");
